@@ -16,6 +16,9 @@ func funcArrayKeepLow(ctx *Context, this *VMValue, params []*VMValue) *VMValue {
 		ctx.Error = errors.New("(arr.kl)类型不符")
 		return nil
 	}
+	if ret, ok := this.arrayKeepInts(n, 1); ok {
+		return NewIntVal(ret)
+	}
 	isAllInt, ret := this.ArrayFuncKeepLow(ctx, n)
 	if isAllInt {
 		return NewIntVal(IntType(ret))
@@ -30,6 +33,9 @@ func funcArrayKeepHigh(ctx *Context, this *VMValue, params []*VMValue) *VMValue 
 		ctx.Error = errors.New("(arr.kh)类型不符")
 		return nil
 	}
+	if ret, ok := this.arrayKeepInts(n, 0); ok {
+		return NewIntVal(ret)
+	}
 	isAllInt, ret := this.ArrayFuncKeepHigh(ctx, n)
 	if isAllInt {
 		return NewIntVal(IntType(ret))
@@ -43,10 +49,12 @@ func funcArraySum(ctx *Context, this *VMValue, params []*VMValue) *VMValue {
 
 	isAllInt := true
 	sumNum := float64(0)
+	sumInt := IntType(0) // exact while every number is an integer
 	for _, i := range arr.List {
 		switch i.TypeId {
 		case VMTypeInt:
 			sumNum += float64(i.MustReadInt())
+			sumInt += i.MustReadInt()
 		case VMTypeFloat:
 			isAllInt = false
 			sumNum += i.MustReadFloat()
@@ -54,7 +62,7 @@ func funcArraySum(ctx *Context, this *VMValue, params []*VMValue) *VMValue {
 	}
 
 	if isAllInt {
-		return NewIntVal(IntType(sumNum))
+		return NewIntVal(sumInt)
 	} else {
 		return NewFloatVal(sumNum)
 	}
